@@ -360,7 +360,7 @@ func ruleFacetBuilderSiblings(r *Report, rule string) {
 				ast.Inspect(rs.Body, func(x ast.Node) bool {
 					switch y := x.(type) {
 					case *ast.BranchStmt:
-						if y.Tok == token.BREAK || y.Tok == token.GOTO {
+						if y.Tok == token.BREAK || (y.Tok == token.GOTO && !gotoStaysInside(rs.Body, y)) {
 							okLoop = false
 						}
 					case *ast.ReturnStmt:
